@@ -8,6 +8,8 @@
 //   memmove, strcpy, strncpy, strchr (2), wcscpy, wcsncpy       null pointer arguments (the functions that state it)
 //   to_string<Capacity>(value)                                  text longer than Capacity, all six overloads
 //   linalg::add / copy / swap_elements / matrix_vector_product  mismatched extents
+//   mdspan operator() / operator[] (4 forms) x layout_left/right/stride   a multi-index outside the extents (round 2)
+//   from_chars / to_chars                                       base outside [2,36] (round 2)
 // Not covered: the TETL_PRECONDITION(false) in _format/argument.hpp ("{{" without "}}"): etl::format_to only compiles
 // for the library's internal fmt_buffer output iterator, so the site is not reachable through a public call.
 #include "c05_common.hpp"
@@ -24,6 +26,7 @@
     #include <etl/string.hpp>
 #else
     #include <etl/bit.hpp>
+    #include <etl/charconv.hpp>
     #include <etl/chrono.hpp>
     #include <etl/linalg.hpp>
     #include <etl/mdspan.hpp>
@@ -202,6 +205,268 @@ void mdspan_cases(Catalogue& c, bool thorough, Ext ext)
         }
         return cx.make<S>(ext, strides);
     });
+}
+
+// ---------------------------------------------------------------------------------------------
+// mdspan element access (round 2): [mdspan.mdspan.members] "index-cast(indices) is a multidimensional index
+// in extents()" for operator()(i...), operator[](i...) (C++23), operator[](span) and operator[](array), in every
+// layout.  One dimension carries the out-of-range value (extent, extent+1, max of the index type, -1 and min for
+// signed index types), the other dimensions every combination of their first and last valid index.  Controls:
+// every multi-index of the extents through every form.
+// ---------------------------------------------------------------------------------------------
+
+template <typename Layout, typename Ext>
+auto mdspan_mapping(Ext const& ext)
+{
+    using M = typename Layout::template mapping<Ext>;
+    if constexpr (std::is_same_v<Layout, etl::layout_stride>) {
+        // row-major with every dimension padded by one element: not exhaustive, strides differ from both
+        // layout_left and layout_right
+        etl::array<typename Ext::index_type, Ext::rank()> strides{};
+        typename Ext::index_type run = 1;
+        for (std::size_t k = Ext::rank(); k-- > 0;) {
+            strides[k] = run;
+            run        = static_cast<typename Ext::index_type>(run * (ext.extent(k) + 1));
+        }
+        return M(ext, strides);
+    } else {
+        return M(ext);
+    }
+}
+
+template <typename MD, typename T, std::size_t R, std::size_t... Is>
+void mdspan_call(MD const& m, int form, std::array<T, R> const& a, std::index_sequence<Is...>)
+{
+    switch (form) {
+    case 0: touch(m(a[Is]...)); break;
+    case 1: touch(m(static_cast<long long>(a[Is])...)); break;
+    case 2: {
+        etl::array<T, R> ea{a[Is]...};
+        touch(m[etl::span<T, R>(ea)]);
+        break;
+    }
+    case 3: {
+        etl::array<T, R> ea{a[Is]...};
+        touch(m[ea]);
+        break;
+    }
+    default:
+    #if defined(__cpp_multidimensional_subscript)
+        touch(m[a[Is]...]);
+    #endif
+        break;
+    }
+}
+
+template <typename Layout, typename Ext>
+void mdspan_index_cases(Catalogue& c, bool thorough, char const* en, char const* ln, Ext ext)
+{
+    using MD              = etl::mdspan<int, Ext, Layout>;
+    using I               = typename Ext::index_type;
+    constexpr std::size_t R = Ext::rank();
+    using Arr             = std::array<I, R>;
+    c.config              = cat("mdspan<int,", en, ",", ln, ">");
+    char const* const F   = "_mdspan/";
+    constexpr I imax      = std::numeric_limits<I>::max();
+    auto mk = [=](Ctx& cx) {
+        auto const map = mdspan_mapping<Layout>(ext);
+        // size of the codomain computed here (layout_stride::required_span_size is declared but not defined)
+        std::size_t need = 1;
+        for (std::size_t k = 0; k < R; ++k) { need += static_cast<std::size_t>(ext.extent(k) - 1) * static_cast<std::size_t>(map.stride(k)); }
+        int* p = cx.buffer<int>(need, 10, 1);
+        return cx.make<MD>(p, map);
+    };
+    static char const* const forms[] = {"mdspan::operator()(indices...)", "mdspan::operator()(indices...)", "mdspan::operator[](span<OtherIndexType,rank>)",
+        "mdspan::operator[](array<OtherIndexType,rank> const&)", "mdspan::operator[](indices...)"};
+    static char const* const formText[] = {"m(", "m(as long long: ", "m[span{", "m[array{", "m["};
+    static char const* const formEnd[]  = {")", ")", "}]", "}]", "]"};
+    #if defined(__cpp_multidimensional_subscript)
+    constexpr int nforms = 5;
+    #else
+    constexpr int nforms = 4;
+    #endif
+    auto text = [&](int form, Arr const& a) {
+        std::string s = formText[form];
+        for (std::size_t k = 0; k < R; ++k) {
+            if (k != 0) { s += ", "; }
+            if constexpr (std::is_signed_v<I>) {
+                s += std::to_string(static_cast<long long>(a[k]));
+            } else {
+                s += show_sz(static_cast<std::size_t>(a[k]));
+            }
+        }
+        return s + formEnd[form];
+    };
+    auto fits_ll = [](I v) {
+        if constexpr (std::is_signed_v<I>) {
+            return true;
+        } else {
+            return static_cast<unsigned long long>(v) <= static_cast<unsigned long long>(std::numeric_limits<long long>::max());
+        }
+    };
+    auto add = [&](bool bad, std::string cls, Arr const& a) {
+        for (int form = 0; form < nforms; ++form) {
+            if (form == 1) {
+                bool ok = true;
+                for (auto v : a) { ok = ok && fits_ll(v); }
+                if (!ok) { continue; }
+            }
+            auto body = [=](Ctx& cx) {
+                MD* m = mk(cx);
+                cx.call([&] { mdspan_call(*m, form, a, std::make_index_sequence<R>{}); });
+            };
+            if (bad) {
+                c.bad(forms[form], cls, text(form, a), F, body);
+            } else {
+                c.ok(forms[form], cls, text(form, a), body);
+            }
+        }
+    };
+    // controls: the whole index space
+    {
+        Arr a{};
+        bool done = false;
+        while (!done) {
+            bool corner = true;
+            for (std::size_t k = 0; k < R; ++k) { corner = corner && (a[k] == 0 || a[k] == static_cast<I>(ext.extent(k) - 1)); }
+            add(false, corner ? "corner" : "inner", a);
+            std::size_t k = R;
+            for (;;) {
+                if (k == 0) {
+                    done = true;
+                    break;
+                }
+                --k;
+                if (a[k] + 1 < ext.extent(k)) {
+                    a[k] = static_cast<I>(a[k] + 1);
+                    break;
+                }
+                a[k] = 0;
+            }
+        }
+    }
+    for (std::size_t d = 0; d < R; ++d) {
+        I const e = ext.extent(d);
+        struct B {
+            I v;
+            char const* cls;
+        };
+        std::vector<B> bad;
+        auto push = [&](I v, char const* cls) {
+            for (auto const& b : bad) {
+                if (b.v == v) { return; }
+            }
+            bad.push_back({v, cls});
+        };
+        push(e, "index_eq_extent");
+        if (e < imax) { push(static_cast<I>(e + 1), "index_past_extent"); }
+        if constexpr (std::is_signed_v<I>) {
+            push(static_cast<I>(-1), "index_negative");
+            push(std::numeric_limits<I>::min(), "index_negative");
+        }
+        if (thorough) {
+            if (e < imax - 7) {
+                push(static_cast<I>(e + 2), "index_past_extent");
+                push(static_cast<I>(e + 7), "index_past_extent");
+            }
+            push(static_cast<I>(imax / 2), "index_huge");
+            push(static_cast<I>(imax / 2 + 1), "index_huge");
+            push(static_cast<I>(imax - 1), "index_max");
+            if constexpr (std::is_signed_v<I>) {
+                push(static_cast<I>(-2), "index_negative");
+                push(static_cast<I>(std::numeric_limits<I>::min() + 1), "index_negative");
+            }
+        }
+        push(imax, "index_max");
+        for (auto const& b : bad) {
+            // the other dimensions: every combination of first / last valid index
+            for (unsigned mask = 0; mask < (1U << R); ++mask) {
+                if ((mask >> d) & 1U) { continue; }
+                Arr a{};
+                bool dup = false;
+                for (std::size_t k = 0; k < R; ++k) {
+                    if (k == d) {
+                        a[k] = b.v;
+                    } else if ((mask >> k) & 1U) {
+                        if (ext.extent(k) == 1) { dup = true; } // first == last
+                        a[k] = static_cast<I>(ext.extent(k) - 1);
+                    }
+                }
+                if (dup) { continue; }
+                add(true, b.cls, a);
+            }
+        }
+    }
+}
+
+// ---------------------------------------------------------------------------------------------
+// from_chars / to_chars (round 2): [charconv.from.chars], [charconv.to.chars] "Preconditions: base has a value
+// between 2 and 36 (inclusive)"
+// ---------------------------------------------------------------------------------------------
+
+template <typename Int>
+void charconv_base_cases(Catalogue& c, bool thorough, char const* in)
+{
+    c.config            = cat("Int=", in);
+    char const* const F = "_charconv/|_strings/";
+    struct B {
+        int base;
+        char const* cls;
+    };
+    std::vector<B> bad{{1, "base_1"}, {0, "base_0"}, {37, "base_gt_36"}, {-1, "base_negative"}, {std::numeric_limits<int>::max(), "base_gt_36"},
+        {std::numeric_limits<int>::min(), "base_negative"}};
+    if (thorough) {
+        bad.push_back({38, "base_gt_36"});
+        bad.push_back({-2, "base_negative"});
+        bad.push_back({-10, "base_negative"});
+        bad.push_back({-16, "base_negative"});
+        bad.push_back({64, "base_gt_36"});
+        bad.push_back({127, "base_gt_36"});
+        bad.push_back({128, "base_gt_36"});
+        bad.push_back({255, "base_gt_36"});
+        bad.push_back({256, "base_gt_36"});
+        bad.push_back({256 + 10, "base_gt_36"}); // 10 after truncation to a one-byte Int
+        bad.push_back({65536 + 10, "base_gt_36"});
+    }
+    std::vector<Int> values{Int(0), Int(7), std::numeric_limits<Int>::max()};
+    if constexpr (std::is_signed_v<Int>) { values.push_back(Int(-7)); }
+    auto from = [&](bool isBad, std::string cls, int base, char const* txt) {
+        auto body = [=](Ctx& cx) {
+            std::size_t const n = std::strlen(txt);
+            char* s             = cx.raw<char>(n);
+            std::memcpy(s, txt, n);
+            Int* v = cx.buffer<Int>(1, Int(5), Int(0));
+            cx.call([&] { sink(etl::from_chars(static_cast<char const*>(s), static_cast<char const*>(s + n), *v, base)); });
+        };
+        std::string const text = cat("from_chars(\"", txt, "\", value, ", base, ")");
+        if (isBad) {
+            c.bad("from_chars(first,last,value,base)", cls, text, F, body);
+        } else {
+            c.ok("from_chars(first,last,value,base)", cls, text, body);
+        }
+    };
+    auto to = [&](bool isBad, std::string cls, int base, Int val) {
+        auto body = [=](Ctx& cx) {
+            char* out = cx.raw<char>(70);
+            cx.call([&] { sink(etl::to_chars(out, out + 70, val, base)); });
+        };
+        std::string const shown = std::is_signed_v<Int> ? std::to_string(static_cast<long long>(val)) : std::to_string(static_cast<unsigned long long>(val));
+        std::string const text  = cat("to_chars(buf, buf+70, ", shown, ", ", base, ")");
+        if (isBad) {
+            c.bad("to_chars(first,last,value,base)", cls, text, F, body);
+        } else {
+            c.ok("to_chars(first,last,value,base)", cls, text, body);
+        }
+    };
+    for (auto const& b : bad) {
+        for (char const* txt : {"0", "10", "zz"}) { from(true, b.cls, b.base, txt); }
+        for (Int v : values) { to(true, b.cls, b.base, v); }
+    }
+    for (int base : {2, 10, 16, 36}) {
+        std::string const cls = base == 2 ? "base_2" : base == 36 ? "base_36" : "base_inner";
+        for (char const* txt : {"0", "10", "zz"}) { from(false, cls, base, txt); }
+        for (Int v : values) { to(false, cls, base, v); }
+    }
 }
 
 #endif
@@ -452,6 +717,22 @@ int main(int argc, char** argv)
         chrono_cases(c, r.thorough());
         run(r, c);
     });
+    m.job("charconv-base", both, [](mc::Reporter& r) {
+        Catalogue c;
+        charconv_base_cases<int>(c, r.thorough(), "int");
+        charconv_base_cases<unsigned char>(c, r.thorough(), "unsigned char");
+        charconv_base_cases<unsigned long long>(c, r.thorough(), "unsigned long long");
+        if (r.thorough()) {
+            charconv_base_cases<signed char>(c, true, "signed char");
+            charconv_base_cases<short>(c, true, "short");
+            charconv_base_cases<unsigned short>(c, true, "unsigned short");
+            charconv_base_cases<unsigned>(c, true, "unsigned");
+            charconv_base_cases<long>(c, true, "long");
+            charconv_base_cases<unsigned long>(c, true, "unsigned long");
+            charconv_base_cases<long long>(c, true, "long long");
+        }
+        run(r, c);
+    });
 #elif MC_PART == 3
     m.job("cstring+to_string", both, [](mc::Reporter& r) {
         Catalogue c;
@@ -474,6 +755,31 @@ int main(int argc, char** argv)
         mdspan_cases(c, r.thorough(), etl::dextents<int, 2>{2, 3});
         mdspan_cases(c, r.thorough(), etl::extents<std::size_t, 2, 3, 4>{});
         linalg_cases(c);
+        run(r, c);
+    });
+    m.job("mdspan-index", both, [](mc::Reporter& r) {
+        Catalogue c;
+        bool const t = r.thorough();
+        using E23    = etl::extents<int, 2, 3>;
+        mdspan_index_cases<etl::layout_right>(c, t, "extents<int,2,3>", "layout_right", E23{});
+        mdspan_index_cases<etl::layout_left>(c, t, "extents<int,2,3>", "layout_left", E23{});
+        mdspan_index_cases<etl::layout_stride>(c, t, "extents<int,2,3>", "layout_stride", E23{});
+        mdspan_index_cases<etl::layout_right>(c, t, "dextents<size_t,2>{3,2}", "layout_right", etl::dextents<std::size_t, 2>{3, 2});
+        mdspan_index_cases<etl::layout_left>(c, t, "extents<unsigned char,dyn,1,2>{2}", "layout_left", etl::extents<unsigned char, etl::dynamic_extent, 1, 2>{2});
+        if (t) {
+            using E4 = etl::extents<short, 4>;
+            mdspan_index_cases<etl::layout_right>(c, t, "extents<short,4>", "layout_right", E4{});
+            mdspan_index_cases<etl::layout_left>(c, t, "extents<short,4>", "layout_left", E4{});
+            mdspan_index_cases<etl::layout_stride>(c, t, "extents<short,4>", "layout_stride", E4{});
+            mdspan_index_cases<etl::layout_left>(c, t, "dextents<size_t,2>{3,2}", "layout_left", etl::dextents<std::size_t, 2>{3, 2});
+            mdspan_index_cases<etl::layout_stride>(c, t, "dextents<size_t,2>{3,2}", "layout_stride", etl::dextents<std::size_t, 2>{3, 2});
+            mdspan_index_cases<etl::layout_right>(c, t, "dextents<long long,3>{2,2,2}", "layout_right", etl::dextents<long long, 3>{2, 2, 2});
+            mdspan_index_cases<etl::layout_left>(c, t, "dextents<long long,3>{2,2,2}", "layout_left", etl::dextents<long long, 3>{2, 2, 2});
+            mdspan_index_cases<etl::layout_stride>(c, t, "dextents<long long,3>{2,2,2}", "layout_stride", etl::dextents<long long, 3>{2, 2, 2});
+            mdspan_index_cases<etl::layout_right>(c, t, "extents<signed char,3,dyn>{2}", "layout_right", etl::extents<signed char, 3, etl::dynamic_extent>{2});
+            mdspan_index_cases<etl::layout_stride>(c, t, "extents<unsigned char,dyn,1,2>{2}", "layout_stride", etl::extents<unsigned char, etl::dynamic_extent, 1, 2>{2});
+            mdspan_index_cases<etl::layout_right>(c, t, "extents<unsigned,2,2>", "layout_right", etl::extents<unsigned, 2, 2>{});
+        }
         run(r, c);
     });
 #endif
